@@ -1,6 +1,19 @@
 //! Result accumulation: what a run explored, what the monitors observed, violations found.
 
 use serde_json::{json, Map, Value};
+
+/// records a violation; description and replay expressions are evaluated only when stored
+#[macro_export]
+macro_rules! viol {
+    ($rep:expr, $sig:expr, $desc:expr, $replay:expr $(,)?) => {{
+        let __sig: String = ($sig).into();
+        if $rep.note(&__sig) {
+            let __d: String = ($desc).into();
+            let __r = $replay;
+            $rep.push_violation(__sig, __d, __r);
+        }
+    }};
+}
 use std::collections::BTreeMap;
 
 #[derive(Clone, Debug)]
@@ -77,18 +90,21 @@ impl Report {
         }
     }
 
-    pub fn violation(&mut self, sig: impl Into<String>, desc: impl Into<String>, replay: Value) {
-        let sig = sig.into();
+    /// counts one violation of `sig`; returns true when its details should be stored (only the
+    /// first two witnesses per signature are kept, so that description/replay rendering — which
+    /// may be long — is not repeated millions of times on a badly broken tree)
+    pub fn note(&mut self, sig: &str) -> bool {
         self.violations_total += 1;
-        let n = self.sig_counts.entry(sig.clone()).or_insert(0);
+        let n = match self.sig_counts.get_mut(sig) {
+            Some(n) => n,
+            None => self.sig_counts.entry(sig.to_string()).or_insert(0),
+        };
         *n += 1;
-        if *n <= 2 && self.violations.len() < 400 {
-            self.violations.push(Violation {
-                sig,
-                desc: desc.into(),
-                replay,
-            });
-        }
+        *n <= 2 && self.violations.len() < 400
+    }
+
+    pub fn push_violation(&mut self, sig: String, desc: String, replay: Value) {
+        self.violations.push(Violation { sig, desc, replay });
     }
 
     /// number of violations recorded so far whose signature belongs to property `pid`
